@@ -434,12 +434,13 @@ def c19(run):
 def c08(run):
     run.build()
     cases = run.gen("Gen_Robust")
+    jcases = run.gen("Gen_JsonWalk", env={"GEN_TIER": "quick"}, out_name="jsoncases.ndjson")
     journal = os.path.join(run.dir, "journal.json")
     traces = []
     skip, avoid, crashes = 0, [], []
     for attempt in range(6):
         name = "trace-C08-%d.ndjson" % attempt
-        args = "journal=%s,skip=%d,avoid=%s" % (journal, skip, "+".join(str(x) for x in avoid))
+        args = "journal=%s,skip=%d,avoid=%s,json=%s" % (journal, skip, "+".join(str(x) for x in avoid), jcases)
         try:
             trace, _ = run.exec("C08", cases=cases, trace_name=name, args=args, timeout=3000)
             traces.append(trace)
